@@ -145,3 +145,78 @@ pub fn systematic_renumberings(n: usize) -> Vec<(String, Vec<usize>)> {
     });
     out
 }
+
+/// Large valid symbols built without the crate: chambers are the cosets of a subgroup H of
+/// a finite Coxeter group <s_0..s_dim | s_i^2, (s_i s_j)^m_ij> (m_ij = 2 for |i-j| > 1)
+/// computed by the reference Todd-Coxeter; s_i acts by right multiplication; the
+/// branching numbers are m_ij / r where that is an integer (otherwise the quotient is
+/// not a symbol and is dropped).  H trivial gives the universal cover.
+pub fn coxeter_symbols(max_size: usize) -> Vec<(String, RS)> {
+    use crate::refmodel::groups::{Tc, Word};
+    let mut out = vec![];
+    let diagrams: Vec<(&str, Vec<usize>)> = vec![
+        ("[3,3]", vec![3, 3]),
+        ("[4,3]", vec![4, 3]),
+        ("[5,3]", vec![5, 3]),
+        ("[2,12]", vec![2, 12]),
+        ("[7,2]", vec![7, 2]),
+        ("[3,3,3]", vec![3, 3, 3]),
+        ("[4,3,3]", vec![4, 3, 3]),
+        ("[3,4,3]", vec![3, 4, 3]),
+        ("[2,2,5]", vec![2, 2, 5]),
+        ("[6]", vec![6]),
+        ("[40]", vec![40]),
+    ];
+    for (name, ms) in diagrams {
+        let dim = ms.len();
+        let ng = dim + 1;
+        let mut rels: Vec<Word> = vec![];
+        for i in 0..ng {
+            rels.push(vec![i as isize + 1, i as isize + 1]);
+        }
+        for i in 0..ng {
+            for j in (i + 1)..ng {
+                let m = if j == i + 1 { ms[i] } else { 2 };
+                let mut w = vec![];
+                for _ in 0..m {
+                    w.push(i as isize + 1);
+                    w.push(j as isize + 1);
+                }
+                rels.push(w);
+            }
+        }
+        let mut subs: Vec<(String, Vec<Word>)> = vec![("1".into(), vec![])];
+        subs.push(("<s0>".into(), vec![vec![1]]));
+        subs.push(("<s0 s1>".into(), vec![vec![1, 2]]));
+        if ng >= 3 {
+            subs.push(("<s1 s2>".into(), vec![vec![2, 3]]));
+            subs.push(("<s0 s2>".into(), vec![vec![1, 3]]));
+            subs.push(("<s0 s1 s2>".into(), vec![vec![1, 2, 3]]));
+        }
+        for (hname, h) in subs {
+            if let Some(a) = Tc::run(ng, &rels, &h, 40 * max_size + 1000) {
+                let n = a.len();
+                if n > max_size {
+                    continue;
+                }
+                let ops: Vec<Vec<usize>> = (0..ng).map(|i| (0..n).map(|r| a.get(r, i as isize + 1)).collect()).collect();
+                let mut s = RS::from_ops(ops);
+                let mut ok = s.is_involutive() && s.commutes();
+                for i in 0..dim {
+                    for d in 0..n {
+                        let r = s.r(i, i + 1, d);
+                        if ms[i] % r == 0 {
+                            s.v[i][d] = ms[i] / r;
+                        } else {
+                            ok = false;
+                        }
+                    }
+                }
+                if ok && s.is_connected() {
+                    out.push((format!("{} / {}", name, hname), s));
+                }
+            }
+        }
+    }
+    out
+}
